@@ -6,7 +6,7 @@ from __future__ import annotations
 
 from ..absval import AbsRaise, Obj, Stub
 from ..astq import loc
-from ..model import AnalysisError
+from ..model import AnalysisError, norm
 from . import roles
 
 
@@ -327,9 +327,53 @@ def rule_frames_of_created_calls(ctx, rid, rr):
     return all(out)
 
 
+def _announces(m, host, call, section, depth=0):
+    """Does this call (in `host`) announce the totals of `section`?  Either it is itself `<observer>.increment_total(section=<section>)`,
+    or its callee (transitively) does so with that constant, or with a section parameter that this call binds to the constant."""
+    import ast as _ast
+    if isinstance(call.func, _ast.Attribute) and call.func.attr == "increment_total":
+        sec = [k.value for k in call.keywords if k.arg == "section"]
+        return bool(sec) and isinstance(sec[0], _ast.Constant) and sec[0].value == section
+    if depth > 3:
+        return False
+    for f in m.callee_funcs(host, call):
+        if f.module.name.startswith("uberjob.progress"):
+            continue
+        for c2 in f.own_calls():
+            if isinstance(c2.func, _ast.Attribute) and c2.func.attr == "increment_total":
+                sec = [k.value for k in c2.keywords if k.arg == "section"]
+                if sec and isinstance(sec[0], _ast.Constant) and sec[0].value == section:
+                    return True
+                if sec and isinstance(sec[0], _ast.Name) and sec[0].id in f.params:
+                    # the section is a parameter of the helper: what does this call pass for it?
+                    pname = sec[0].id
+                    given = [k.value for k in call.keywords if k.arg == pname]
+                    if not given and pname in f.pos_params:
+                        i_ = f.pos_params.index(pname) - (1 if f.cls is not None else 0)
+                        given = [call.args[i_]] if 0 <= i_ < len(call.args) else []
+                    if not given and pname in f.defaults:
+                        given = [f.defaults[pname]]
+                    if given and isinstance(given[0], _ast.Constant) and given[0].value == section:
+                        return True
+            elif _announces(m, f, c2, section, depth + 1):
+                return True
+    return False
+
+
+def totals_site(m, rr, section):
+    """Role TOTALS[section]: the call in run (section 'run') / in the registry application (section 'stale') that announces the
+    totals of the section - a call of a dedicated totals function, of a shared helper that is told the section, or the
+    increment_total call itself.  -> (host function, call node)"""
+    host = rr.run if section == "run" else rr.apply
+    found = [c for c in host.own_calls() if _announces(m, host, c, section)]
+    # keep the outermost calls only (a helper call whose argument contains another announcing call cannot occur; defensive)
+    if not found:
+        raise AnalysisError(f"role TOTALS[{section}]: no call in {host.qualname} announces the '{section}' totals")
+    return host, found[0] if len(found) == 1 else found
+
+
 def totals_function(m, section):
-    """Role: the function outside the progress package that announces the totals of `section` (an increment_total call whose section
-    argument is that constant) - today _update_run_totals / _update_stale_totals."""
+    """The dedicated totals function of a section when there is one (today _update_run_totals / _update_stale_totals), else None."""
     import ast as _ast
     found = []
     for f in m.funcs.values():
@@ -341,9 +385,33 @@ def totals_function(m, section):
                 if sec and isinstance(sec[0], _ast.Constant) and sec[0].value == section:
                     found.append(f)
     found = list(dict.fromkeys(found))
-    if len(found) != 1:
-        raise AnalysisError(f"role TOTALS[{section}]: expected one function announcing the '{section}' totals, found {[f.qualname for f in found]}")
-    return found[0]
+    return found[0] if len(found) == 1 else None
+
+
+def eval_totals_site(interp, m, rr, section, values):
+    """Evaluate the totals call of `section` with the host's variables bound to abstract values (values: {'plan': ..,
+    'observer': .., 'registry': ..}).  The names are the host's own: run's plan parameter and observer variable / the
+    registry application's parameters."""
+    from ..absval import Env
+    from ..astq import names_in
+    host, call = totals_site(m, rr, section)
+    if isinstance(call, list):
+        call = call[0]  # several call sites on different paths (e.g. one per arm): they are checked to be alternatives by C15.P2
+    env = Env(host, Env(host.module))
+    if host is rr.run:
+        env.vars[host.pos_params[0]] = values["plan"]
+        env.vars[rr.observer_var] = values["observer"]
+    else:
+        for p_ in host.params:
+            if "observer" in p_:
+                env.vars[p_] = values["observer"]
+            elif "registry" in p_:
+                env.vars[p_] = values.get("registry")
+        env.vars[host.pos_params[0]] = values["plan"]
+    missing = [n for n in names_in(call) if env.lookup(n)[0] is None and m.binding_scope(host, n) is host]
+    if missing:
+        raise AnalysisError(f"role TOTALS[{section}]: the totals call `{norm(call)[:80]}` uses the local(s) {sorted(missing)} of {host.short}")
+    return interp.eval(call, env)
 
 
 def rule_totals(ctx, rid, rr, rid_positive=None):
@@ -352,7 +420,10 @@ def rule_totals(ctx, rid, rr, rid_positive=None):
     0), and the scope it announces for a call is the scope the run callback reports for that call."""
     from .rewriterules import World
     m = ctx.model
-    f = totals_function(m, "run")
+    host_, call_ = totals_site(m, rr, "run")
+    if isinstance(call_, list):
+        call_ = call_[0]
+    f = totals_function(m, "run") or host_
     w = World(m, rr)
     a1, a2, b = w.call("a1", scope=("A",)), w.call("a2", scope=("A",)), w.call("b", scope=("B",))
     w.interp.call_func(m.method("Plan", "lit", "EVAL"), None, [7], {}, bound_self=w.plan)
@@ -365,17 +436,24 @@ def rule_totals(ctx, rid, rr, rid_positive=None):
                      "increment_failed": Stub("increment_failed", lambda *a, **k: None)}, name="observer")
     params = {"plan": w.plan, "progress_observer": obs}
     try:
-        args = [params[p] for p in f.pos_params if p in params]
-        if len(args) != len([p for p in f.pos_params if p not in f.defaults]):
-            raise AnalysisError(f"unexpected parameters of {f.qualname}: {f.pos_params}")
-        w.interp.call_func(f, None, args, {})
+        try:
+            eval_totals_site(w.interp, m, rr, "run", {"plan": w.plan, "observer": obs})
+        except AnalysisError as e0:
+            # the call hands further locals of run to a dedicated totals function: evaluate that function on its own, with its
+            # extra parameters at their defaults (they are exercised separately below)
+            if f is host_ or "uses the local(s)" not in str(e0):
+                raise
+            args = [params[p] for p in f.pos_params if p in params]
+            if len(args) != len([p for p in f.pos_params if p not in f.defaults]):
+                raise AnalysisError(f"unexpected parameters of {f.qualname}: {f.pos_params}")
+            w.interp.call_func(f, None, args, {})
     except AbsRaise as e:
-        raise AnalysisError(f"abstract evaluation of {f.qualname} raised {e.value!r}")
+        raise AnalysisError(f"abstract evaluation of the run totals ({norm(call_)[:60]}) raised {e.value!r}")
     amounts = sorted(t[2] for t in totals if isinstance(t[2], int))
     ok = amounts == [1, 2] and all(t[0] == "run" for t in totals) and len({t[1] for t in totals}) == 2
     ctx.ob(rid, f"{f.short}/amount", ok, loc(f), "amount = multiplicity of the scope among the Call nodes" if ok else
            f"announced amount is not the multiplicity of the scope: two calls in scope A, one in scope B and a literal announced {totals}")
-    if rid_positive:
+    if rid_positive and f is not host_ and all(p in f.params for p in ("plan", "progress_observer")):
         # further inputs of the totals function (parameters with an empty default) are exercised with a scope that no call of
         # the plan is in: whatever they are for, they must not make a total of 0 appear
         import ast as _ast
@@ -394,6 +472,7 @@ def rule_totals(ctx, rid, rr, rid_positive=None):
                     f, None, [params.get(x, [("Z",)] if x == p_ else None) for x in f.pos_params[:f.pos_params.index(p_) + 1]], {})
             except (AbsRaise, AnalysisError):
                 pass
+    if rid_positive:
         pos = bool(totals) and all(isinstance(t[2], int) and t[2] >= 1 for t in totals)
         ctx.ob(rid_positive, f"{f.short}/totals-positive", pos, loc(f),
                "every announced total is at least 1 (the displays divide by it)" if pos else
